@@ -295,6 +295,34 @@ namespace
     ex.req = request_of(c);
     ex.dim = c.dim;
     { size_t s = 0; for (auto &q : ex.req) { ex.start.push_back(s); s += native.properties_output_size({q}); } }
+    // every requested value must have a column (checked when every header name is understood; unknown names are reported below)
+    {
+      size_t total = 0;
+      for (auto &q : ex.req) total += native.properties_output_size({q});
+      std::vector<bool> covered(total, false);
+      bool unknown = false;
+      for (auto &nm : header)
+        {
+          bool is_echo = false; size_t ei = 0;
+          const size_t slot = ex.slot_of(nm, is_echo, ei);
+          if (is_echo) continue;
+          if (slot == SIZE_MAX || slot >= total) unknown = true; else covered[slot] = true;
+        }
+      // the 2-D table prints the two in-plane velocity components only
+      if (c.dim == 2) for (size_t qi = 0; qi < ex.req.size(); ++qi) if (ex.req[qi][0] == 5 && ex.start[qi] + 2 < total) covered[ex.start[qi] + 2] = true;
+      if (!unknown)
+        for (size_t slot = 0; slot < total; ++slot)
+          if (!covered[slot])
+            {
+              size_t qi = 0;
+              while (qi + 1 < ex.req.size() && ex.start[qi+1] <= slot) ++qi;
+              const unsigned kind = ex.req[qi][0];
+              fail("C17/" + dims + "/requested-value-has-no-column/" + (kind == 1 ? "temperature" : kind == 2 ? "composition" : kind == 3 ? "grains" : kind == 4 ? "tag" : "velocity") +
+                   (kind == 3 && c.gcomps > c.comps ? "/more-grain-compositions-than-compositions" : ""),
+                   "the table has no column for a value the data file asks for", JObj().integer("output_slot", static_cast<long long>(slot)).integer("request_entry", static_cast<long long>(qi)).str("header", lines[0]).done());
+              break;
+            }
+    }
     std::vector<std::set<std::string>> seen(header.size());
     bool header_reported = false;
     for (size_t ir = 0; ir < rows.size(); ++ir)
